@@ -226,6 +226,27 @@ type Fact struct {
 	X, Y  ssa.Value // canonical operands (FCmp)
 	If    *ssa.If
 	Block *ssa.BasicBlock // block of the If
+	Bind  *ssa.CallCommon // for a fact read out of a guard helper: the call whose arguments bind the helper's parameters
+}
+
+// Resolve maps a value that is a parameter of the guard helper this fact was read from onto the argument
+// passed at the guarding call (identity of "the thing that was checked" across the helper boundary).
+func (f Fact) Resolve(v ssa.Value) ssa.Value {
+	v = canon(v)
+	p, ok := v.(*ssa.Parameter)
+	if !ok || f.Bind == nil {
+		return v
+	}
+	h := f.Bind.StaticCallee()
+	if h == nil || p.Parent() != h {
+		return v
+	}
+	for i, q := range h.Params {
+		if q == p && i < len(f.Bind.Args) {
+			return canon(f.Bind.Args[i])
+		}
+	}
+	return v
 }
 
 func isNilConst(v ssa.Value) bool {
@@ -533,8 +554,20 @@ func expandHelperFact(f Fact, depth int) []Fact {
 
 func withSite(fs []Fact, at Fact) []Fact {
 	out := make([]Fact, len(fs))
+	var bind *ssa.CallCommon
+	switch x := canon(at.V).(type) {
+	case *ssa.Call:
+		bind = x.Common()
+	case *ssa.Extract:
+		if c, ok := x.Tuple.(*ssa.Call); ok {
+			bind = c.Common()
+		}
+	}
 	for i, x := range fs {
 		x.If, x.Block = at.If, at.Block
+		if x.Bind == nil {
+			x.Bind = bind
+		}
 		out[i] = x
 	}
 	return out
@@ -817,6 +850,18 @@ func GuardErrNil(in ssa.Instruction, pred func(Callee) bool) *ssa.Call {
 }
 
 // GuardBool: instruction is dominated by "a bool result of a call matching pred == want".
+// GuardBoolFact is GuardBool returning the fact as well (for Fact.Resolve).
+func GuardBoolFact(in ssa.Instruction, pred func(Callee) bool, want bool) (*ssa.Call, Fact) {
+	for _, f := range FactsAt(in) {
+		if (f.Kind == FTrue && want) || (f.Kind == FFalse && !want) {
+			if c := factFromCall(f, pred); c != nil {
+				return c, f
+			}
+		}
+	}
+	return nil, Fact{}
+}
+
 func GuardBool(in ssa.Instruction, pred func(Callee) bool, want bool) *ssa.Call {
 	for _, f := range FactsAt(in) {
 		if (f.Kind == FTrue && want) || (f.Kind == FFalse && !want) {
